@@ -1081,6 +1081,8 @@ func (c *Client) checkInitialMessage() error {
 
 	if h, ok := c.handlers[hdr.typ]; ok {
 		c.handleGuarded(h, Message{Header: hdr, payload: bytes.NewBuffer(buf)})
+	} else if c.defaultHandler != nil {
+		c.handleGuarded(c.defaultHandler, Message{Header: hdr, payload: bytes.NewBuffer(buf)})
 	}
 
 	if hdr.typ != MsgReaderEventNotification {
